@@ -42,7 +42,12 @@ def get_cell_size():
 
 
 def get_terminal_name_version():
-    return state["name_version"]
+    # `is_on_kitty` = "the terminal identifies itself as kitty": the library's own `TextImage._is_on_kitty()` runs
+    # on top of this answer (it is NOT replaced), so a change to how it decides is seen by the checks
+    name, version = state["name_version"]
+    if state["is_on_kitty"] and not name:
+        return ("kitty", version or "0.30.0")
+    return (name, version)
 
 
 def get_fg_bg_colors(*, hex=False):
@@ -71,7 +76,6 @@ import term_image.image  # noqa: E402
 import term_image.image.common as _common  # noqa: E402
 
 term_image.image.GraphicsImage._supported = True
-term_image.image.TextImage._is_on_kitty = staticmethod(_is_on_kitty)
 
 
 def set_env(term_size=None, cell_size=..., name=None, version="", fg=..., bg=..., is_on_kitty=None):
